@@ -113,6 +113,8 @@ def normal_form(con):
             nf = normal_form(sc)
             if sc.conflags & core.Construct.FLAG_EMBED and nf[0] == 'struct':
                 items.extend(nf[1])
+            elif sc.conflags & core.Construct.FLAG_EMBED and nf[0] in ('switch', 'ifthenelse'):
+                items.append(('<embed>', nf))
             else:
                 items.append((sc.name, nf))
         return ('struct' if t is core.Struct else 'sequence', items)
@@ -143,6 +145,9 @@ def normal_form(con):
             raise K2Error('PaddingAdapter over %r' % (sub,))
         return ('pad', sub[1], con.pattern, con.strict)
     if t is core.Value:
+        ce = closure_env(con.func)
+        if con.func.__code__.co_freevars == ('elsevalue',):
+            return ('const', ce['elsevalue'])
         return ('value', Fn(con.func))
     if t is core.Switch:
         cases = {k: normal_form(v) for k, v in con.cases.items()}
@@ -151,11 +156,20 @@ def normal_form(con):
         if d is not core.Switch.NoDefault:
             dnf = normal_form(d)
         if set(cases.keys()) == {True, False} and dnf is None:
-            return ('ifthenelse', Fn(con.keyfunc), cases[True], cases[False])
+            kf = con.keyfunc
+            if kf.__code__.co_freevars == ('predicate',):      # IfThenElse macro wrapper: bool(predicate(ctx))
+                kf = kf.__closure__[0].cell_contents
+            return ('ifthenelse', Fn(kf), cases[True], cases[False])
         return ('switch', Fn(con.keyfunc), cases, dnf)
     if t is adapters.LengthValueAdapter:
         sub = normal_form(con.subcon)
         if sub[0] == 'sequence' and len(sub[1]) == 2 and sub[1][1][1][0] == 'array':
+            cnt = sub[1][1][1][1]
+            lname = sub[1][0][0]
+            ok = isinstance(cnt, Fn) and closure_env(cnt.fn).get('name') == lname and \
+                cnt.fn.__code__.co_freevars == ('name',)
+            if not ok:
+                raise K2Error('PrefixedArray count is not the length field')
             return ('prefixed', sub[1][0][1], sub[1][1][1][2])
         raise K2Error('LengthValueAdapter over %r' % (sub,))
     if t is core.Buffered or t is core.Restream:
@@ -163,7 +177,18 @@ def normal_form(con):
         sub = con.subcon
         return ('bits', _bits(sub))
     if name == '_InitialLengthAdapter':
-        return ('initial_length', normal_form(con.subcon))
+        sub = normal_form(con.subcon)
+        # Struct(first: u32, second: If(first == 0xFFFFFFFF, u64, None))
+        try:
+            (n1, f1), (n2, f2) = sub[1]
+            ok = (n1, n2) == ('first', 'second') and f1[0] == 'int' and f1[1:3] == (4, False) and \
+                f2[0] == 'ifthenelse' and f2[2][0] == 'int' and f2[2][1:3] == (8, False) and f2[3] == ('const', None) \
+                and f2[2][3] == f1[3]
+        except Exception:
+            ok = False
+        if not ok:
+            return ('initial_length-unexpected-shape', sub)
+        return ('initial_length', f1[3], f2[1])
     if t is core.Peek:
         return ('peek', normal_form(con.subcon))
     if t is core.Pointer:
@@ -177,7 +202,7 @@ def normal_form(con):
     if t is adapters.ConstAdapter:
         return ('const', con.value, normal_form(con.subcon))
     if name == 'FormattedEntry' or hasattr(con, 'format_field'):
-        return ('formatted', con.format_field, tuple(sorted(getattr(con, 'factory', {}).items())) if isinstance(getattr(con, 'factory', None), dict) else None)
+        return ('formatted', con.format_field)
     raise K2Error('unknown construct class %s' % name)
 
 
@@ -494,7 +519,19 @@ def differential(real_con, spec_nf, rng, n=40, maxlen=320):
     for i in range(n):
         ln = rng.choice([0, 1, 3, 4, 8, 12, 16, 24, 40, 64, 128, maxlen])
         mode = rng.random()
-        if mode < 0.15:
+        data = None
+        if i % 2 == 0:
+            # input valid for the specification layout, followed by random trailing bytes
+            try:
+                raw, _v = sem.gen(spec_nf, rng, None, 0)
+                data = raw + bytes(rng.randrange(256) for _ in range(rng.choice([0, 0, 5, 40])))
+                if rng.random() < 0.15 and raw:
+                    data = raw[:rng.randrange(len(raw))]          # truncated
+            except Exception:
+                data = None
+        if data is not None:
+            pass
+        elif mode < 0.15:
             data = bytes(ln)
         elif mode < 0.3:
             data = bytes([0xff]) * ln
@@ -516,6 +553,8 @@ def differential(real_con, spec_nf, rng, n=40, maxlen=320):
             serr = None
         except sem.Fail as e:
             sv, send, serr = None, None, e
+        except sem.DontCare:
+            continue
         except Exception as e:
             return dict(confirmed=False, error='Sem crashed: %r' % (e,))
         if (rerr is None) != (serr is None):
